@@ -36,7 +36,7 @@ NOTE = (
     "map's business: its invariants are checked on the zoo only (bounded)."
 )
 F = "ampform.helicity.HelicityAmplitudeBuilder.__generate_amplitude_prefactor"
-ZOO = ["jpsi_sigmabar_sigma", "jpsi_k0_sigma_pbar_N", "jpsi_gamma_p_pbar", "chic1_phi_phi", "lambdac_p_k_pi", "jpsi_gamma_pi0_pi0", "jpsi_pi0_pip_pim", "d1_k_k_k0"]
+ZOO = ["jpsi_sigmabar_sigma", "jpsi_k0_sigma_pbar_N", "jpsi_gamma_p_pbar", "chic1_phi_phi", "lambdac_p_k_pi", "jpsi_gamma_pi0_pi0", "jpsi_pi0_pip_pim", "d1_k_k_k0", "chic0_omega_omega"]
 
 
 def _real_method():
@@ -221,7 +221,7 @@ def build(chk: Check) -> None:
     models.quiet()
     meth_real = _real_method()
     n_tr = 0
-    for name in ZOO if chk.tier == "thorough" else ZOO[:6]:
+    for name in ZOO if chk.tier == "thorough" else [*ZOO[:6], "chic0_omega_omega"]:
         for formalism in ("helicity", "canonical-helicity"):
             r = zoo.reaction(name, formalism)
             for parent_hel, child_hel in ((False, True), (True, True)) + (((True, False),) if chk.tier == "thorough" else ()):
@@ -248,7 +248,7 @@ def build(chk: Check) -> None:
     chk.extra["zoo_transitions_evaluated"] = n_tr
     # "equivalently": helicity couplings from the Clebsch-Gordan expansion reproduce the canonical model (reactions generated
     # under strong/EM interactions in both formalisms)
-    for name in ("jpsi_sigmabar_sigma", "jpsi_k0_sigma_pbar_N", "jpsi_gamma_p_pbar", "jpsi_gamma_pi0_pi0", "jpsi_pi0_pip_pim", "chic1_phi_phi"):
+    for name in ("jpsi_sigmabar_sigma", "jpsi_k0_sigma_pbar_N", "jpsi_gamma_p_pbar", "jpsi_gamma_pi0_pi0", "jpsi_pi0_pip_pim", "chic1_phi_phi", "chic0_omega_omega"):
         def rep(_m, name=name):
             bad, _ = canonical_consistency(name)
             return {"reproduced": bool(bad), "input": {"reaction": name, "canonical_coefficients": "random.Random(1)"}, "observed": bad[:3],
@@ -283,14 +283,27 @@ def model_level_pairs(name: str, formalism: str, history) -> list[dict]:
         b.naming.insert_child_helicities = child_hel
         model = b.formulate()
     groups: dict = {}
+    import collections
+
+    # without parent helicities in the names several chains can share ONE component name (it then holds their sum): such a component
+    # does not factor into coefficient x chain and says nothing about a single chain's sign
+    multiplicity = collections.Counter(b.naming.generate_amplitude_name(t) for t in r.transitions)
     for t in r.transitions:
+        if multiplicity[b.naming.generate_amplitude_name(t)] > 1:
+            continue
         comp = model.components.get(f"A_{{{b.naming.generate_amplitude_name(t)}}}")
         if comp is None:
             return [{"chain": str({i: (s.particle.name, str(s.spin_projection)) for i, s in t.states.items()}), "problem": "no component for this chain"}]
         coeffs = sorted((s for s in comp.free_symbols if s.name.startswith("C_")), key=str)
         if len(coeffs) != 1:
             continue  # symmetrised sums / helicity couplings: not of the form coefficient x chain
-        sign = sp.Mul(*[f for f in sp.Mul.make_args(comp) if f.is_number])
+        # the component is coefficient x chain, or (identical final-state particles) the SUM of that over the exchanged graphs: every
+        # term then carries the chain's constant factor; terms with different factors do not determine one sign (skipped)
+        # (identical exchanged terms collapse into 2 x term: only the SIGN of the constant factor is the chain's parity factor)
+        signs = {sp.sign(sp.Mul(*[f for f in sp.Mul.make_args(term) if f.is_number])) for term in sp.Add.make_args(comp)}
+        if len(signs) != 1:
+            continue
+        sign = next(iter(signs))
         groups.setdefault(coeffs[0], []).append((t, sign))
     bad = []
     for c, lst in groups.items():
@@ -323,7 +336,7 @@ def model_level_pairs(name: str, formalism: str, history) -> list[dict]:
 
 def model_level(chk: Check) -> None:
     models.quiet()
-    names = ZOO if chk.tier == "thorough" else ["jpsi_sigmabar_sigma", "jpsi_gamma_p_pbar", "jpsi_pi0_pip_pim", "chic1_phi_phi"]
+    names = ZOO if chk.tier == "thorough" else ["jpsi_sigmabar_sigma", "jpsi_gamma_p_pbar", "jpsi_pi0_pip_pim", "chic1_phi_phi", "chic0_omega_omega"]
     for name in names:
         # helicity formalism only: in the canonical formalism chains share an LS coefficient for another reason (one coefficient per
         # LS combination, the helicity dependence sits in the Clebsch-Gordan factors) -- the statement's first sentence is about
